@@ -18,6 +18,37 @@ CLAIMED = {
              "tests/test_partitioner.py), random.choice modelled as an arbitrary index. No axioms.",
         technique="Coq proof over a model regenerated from source by a Python-AST translator",
         design="5/C17"),
+    "C01": dict(
+        text="Machine-checked proof (Coq 8.16) over a per-partition model of accumulator, sender, sequence stamping "
+             "(TransactionManager.increment_sequence_number is translated from source on every run) and the partition "
+             "leader's idempotence rule: for every event sequence the model accepts - any interleaving of accepts, "
+             "drains, arrivals, lost/failed replies and retries - with no sequence wrap inside the run, the leader never "
+             "sees a gap or reused sequence, its log is a duplicate-free prefix of the accepted records in acceptance "
+             "order, acknowledged records are in the log, one batch per partition is in flight; without idempotence the "
+             "log is the drained batches in order, each repeated as a whole block. The wrap clause is refuted for the code "
+             "as it is (known finding). The real AIOKafkaProducer runs under a deterministic simulator with fault "
+             "schedules; every per-partition boundary trace must be accepted by the model with equal log/verdicts/acks, and "
+             "independent monitors state the property on the simulated logs.",
+        note="Trusted: Coq kernel; translator for the increment (validated per run); hand model Producer.v tied by trace "
+             "acceptance; simulated cluster (idempotence rule from Kafka's ProducerStateManager) as broker oracle; "
+             "observation wrappers installed from outside; one asyncio ready-queue order per schedule. No axioms. "
+             "Theorems carry the no-wrap hypothesis (partial w.r.t. wrap-around, which the code violates).",
+        technique="Coq invariant proofs over an LTS model + trace acceptance of the real producer under deterministic simulation",
+        design="5/C01"),
+    "C02": dict(
+        text="Machine-checked proof (Coq 8.16): MessageBatch.done/done_noack/failure as functions (per-record offset, "
+             "timestamp, timestamp type; resolved futures untouched; acks=0 carries no metadata) tied to the real methods "
+             "by differential evaluation on every run; over the batch life-cycle model every accepted record is resolved at "
+             "most once, flush()/stop() can return only when everything accepted is resolved, with idempotence retriable "
+             "faults never fail a record, and a fault-free sender round resolves the head batch (liveness as rounds: partial). "
+             "The real producer runs under the simulator (acks 0/1/all, produce v0..v7, CreateTime/LogAppendTime, flush/stop at "
+             "arbitrary times, fault schedules followed by quiet) with monitors comparing every future's metadata with the "
+             "record sitting at that offset in the simulated log.",
+        note="Trusted: Coq kernel; hand models tied by differential testing / trace acceptance; simulated cluster and the "
+             "independent reference record reader as oracle; 'bounded time' is virtual time in the simulator and rounds in "
+             "the model. No axioms.",
+        technique="Coq proofs over function and LTS models + differential testing and deterministic simulation of the real producer",
+        design="5/C02"),
 }
 
 ALL = [f"C{i:02d}" for i in range(1, 20)]
